@@ -336,6 +336,14 @@ def handle (toks : List String) : String :=
     | _ => "bad-args"
   -- pair: source rows, reference rows, source cols, reference cols (o p n each), procRef, bands, block shape, overlap,
   --       optionally followed by an explicit processing window (row lo hi, col lo hi) instead of the model's own
+  -- autoshape H W maxBytes(rational) : block shape of `_auto_block_shape`, or err
+  | ["autoshape", hh, ww, mb] =>
+    match hh.toNat?, ww.toNat?, parseRat mb with
+    | some H, some W, some m =>
+      (match autoBlockShape 400 H W m with
+       | some (a, b) => s!"{a} {b}"
+       | none => "err")
+    | _, _, _ => "bad-args"
   | "pair" :: rest =>
     match ints rest with
     | some (sro :: srp :: srn :: rro :: rrp :: rrn :: sco :: scp :: scn :: rco :: rcp :: rcn :: pr :: nb :: bsr ::
